@@ -185,6 +185,7 @@ func read(in io.Reader, metadata *raft.SnapshotMeta, snap io.Writer) error {
 
 	// Look through the archive for the pieces we care about.
 	var shaBuffer bytes.Buffer
+	seen := make(map[string]struct{})
 	for {
 		hdr, err := archive.Next()
 		if err == io.EOF {
@@ -194,6 +195,7 @@ func read(in io.Reader, metadata *raft.SnapshotMeta, snap io.Writer) error {
 			return fmt.Errorf("failed reading snapshot: %v", err)
 		}
 
+		seen[hdr.Name] = struct{}{}
 		switch hdr.Name {
 		case "meta.json":
 			// Previously we used json.Decode to decode the archive stream. There are
@@ -230,6 +232,14 @@ func read(in io.Reader, metadata *raft.SnapshotMeta, snap io.Writer) error {
 	// Verify all the hashes.
 	if err := hl.DecodeAndVerify(&shaBuffer); err != nil {
 		return fmt.Errorf("failed checking integrity of snapshot: %v", err)
+	}
+
+	// The hash of a member that is absent equals the hash of one that is
+	// present but empty, so make sure the members were really there.
+	for _, name := range []string{"meta.json", "state.bin"} {
+		if _, ok := seen[name]; !ok {
+			return fmt.Errorf("failed checking integrity of snapshot: file %q missing", name)
+		}
 	}
 
 	return nil
